@@ -4,7 +4,7 @@ PROP = {
         "level": "fault_enumeration",
         "level_text": "Fault enumeration over the real emit_file worker (Worker::on_batch through the cfg(emit_rs_emit_verif) hook) running on a fault-injecting in-memory filesystem: for every generated batch history (400 quick / 32 000 thorough; 1-12 batches of 1-8 self-describing records, clock advances, clean restarts with and without reuse_files, two separators) a fault-free run counts the filesystem operations and then EVERY operation index is replayed under EVERY fault kind (error; on writes three short-write-then-error splits and a benign short write; crash x {lose all unsynced, keep all, seeded prefix} x {restart with reuse, without}), plus seeded sequences of 2-3 faults. The durability / record-integrity oracle runs after every on_batch attempt, restart and crash. An end-to-end lane drives the whole pipeline (emit -> channel -> worker) over the same filesystem, and a strace lane checks the real StdFilesystem syscall pattern. Held-on-what-was-observed: histories are sampled, the fault positions inside each history are exhausted.",
         "level_note": "Trusts the filesystem model in harness/monx/src/shared/fakefs.rs (append-only files with synced / unsynced bytes, directory entries durable only after sync_parent, crash keeps synced bytes plus a prefix of the unsynced bytes) and the harness's batcher role (re-submit exactly the returned remainder, at most 6 times). Real power loss on real media is out of reach; the strace lane only checks the syscall pattern (O_APPEND|O_CREAT|O_EXCL, fsync(file) before flush returns, fsync(dir) after create).",
-        "technique": "runtime monitoring: record/durability oracle over a fault-injecting filesystem, every op index x fault kind per history, seeded multi-fault sequences, end-to-end pipeline lane, strace lane on the real filesystem",
+        "technique": "runtime monitoring: record/durability oracle over a fault-injecting filesystem, every op index x fault kind per history, seeded multi-fault sequences, end-to-end pipeline lane, strace lane on the real filesystem; valgrind memcheck run of the fault-enumeration monitor (thorough)",
         "assumptions": [
             "crash model: per file the synced bytes plus none / all / a seeded prefix of the unsynced appended bytes survive; a file whose directory entry was never synced may vanish; an unsynced deletion may be undone",
             "records are self-describing (`id:len:payload` + separator) and never contain the separator byte; separators are single bytes (multi-byte separators interrupted mid-separator are not generated)",
@@ -15,6 +15,7 @@ PROP = {
         "lanes": [
             native("c10", pkg="monx", scale={"quick": 100, "thorough": 400}),
             native("c07x", pkg="monx", name="files-e2e", args={"prop": "C10"}),
+            memcheck("c10", scale=1, timeout={"thorough": 3600}),
             {"name": "strace", "kind": "script", "script": "c10-strace", "tiers": QT, "args": {"prop": "C10"}},
         ],
     }
